@@ -327,6 +327,40 @@ func checkHandler(r *vlib.Run, h *hook, c handlerCase) {
 		if st.state == "waiting" {
 			fail("idle-shutdown-hangs", "all handlers have finished, yet wait(true) after SIGINT is parked in select inside termMonitor.wait with no event pending")
 		}
+	case "hold":
+		// the connection under test stays open across the shutdown request
+		st := parseTermStatus(h.call("term.wait 0"))
+		st = parseTermStatus(h.call(fmt.Sprintf("term.handler %s hold", c.Who)))
+		if st.handlers != 1 {
+			fail("handler-not-held", "the held connection's handler is not running: "+st.raw)
+			return
+		}
+		if st.n != "?" && st.n != "1" {
+			fail("handler-count-wrong", "one handler is active (its connection is open) but numHandlers is "+st.n)
+			return
+		}
+		st = parseTermStatus(h.call("term.ev int"))
+		if st.state != "returned:int" {
+			fail("signal-not-returned", "wait(false) did not return SIGINT: "+st.raw)
+			return
+		}
+		st = parseTermStatus(h.call("term.wait 1"))
+		if st.state != "waiting" {
+			fail("shutdown-with-active-handlers", "wait(true) returned although a handler is active (its connection is still open): "+st.raw)
+			return
+		}
+		st = parseTermStatus(h.call("term.release"))
+		if st.handlers != 0 {
+			fail("handler-did-not-finish", "both sides of the connection ended but the handler is still running: "+st.raw)
+			return
+		}
+		if st.state != "returned:term" {
+			fail("shutdown-not-completed-at-zero", "the last handler finished but wait(true) did not return: "+st.raw)
+			return
+		}
+		if st.n != "?" && st.n != "0" {
+			fail("handler-count-wrong", "all handlers finished but numHandlers is "+st.n)
+		}
 	case "held":
 		// shutdown requested while another handler is active: the connection under test must
 		// contribute +1 and -1
@@ -1090,6 +1124,7 @@ func main() {
 			hcases = append(hcases, handlerCase{Who: p[0], Path: p[1], Mode: m})
 		}
 	}
+	hcases = append(hcases, handlerCase{Who: "client", Path: "hold", Mode: "hold"}, handlerCase{Who: "server", Path: "hold", Mode: "hold"})
 	parallel(ws, len(hcases), func(w *worker, i int) { checkHandler(r, w.h, hcases[i]) })
 
 	// 3. relay: all schedules of the small scripts
